@@ -88,6 +88,53 @@ pub struct ExploreStats {
     pub deadline_hit: bool,
 }
 
+/// Dynamic work distribution between the explorer processes of one check. `bin/check` creates a
+/// zero-filled file and passes its path in `VERIF_CLAIMS`; every process maps it shared. Entry
+/// `region * REGION + index` is claimed by the first process whose compare-exchange 0 -> 1
+/// succeeds. Every process enumerates the same split-depth children (and the same whole jobs) in
+/// the same order, so each one is explored by exactly one process: the explored set is the same
+/// as with static partitioning, only the assignment balances itself. Without the variable (or
+/// beyond the region size) the static hash partition is used.
+pub mod claims {
+    use std::sync::atomic::{AtomicU8, Ordering};
+    use std::sync::OnceLock;
+    pub const REGION: usize = 1 << 20;
+    static TABLE: OnceLock<Option<&'static [AtomicU8]>> = OnceLock::new();
+    fn table() -> Option<&'static [AtomicU8]> {
+        *TABLE.get_or_init(|| {
+            let path = std::env::var("VERIF_CLAIMS").ok()?;
+            let c = std::ffi::CString::new(path).ok()?;
+            unsafe {
+                let fd = libc::open(c.as_ptr(), libc::O_RDWR);
+                if fd < 0 {
+                    return None;
+                }
+                let mut st: libc::stat = std::mem::zeroed();
+                if libc::fstat(fd, &mut st) != 0 || st.st_size <= 0 {
+                    libc::close(fd);
+                    return None;
+                }
+                let len = st.st_size as usize;
+                let p = libc::mmap(std::ptr::null_mut(), len, libc::PROT_READ | libc::PROT_WRITE, libc::MAP_SHARED, fd, 0);
+                libc::close(fd);
+                if p == libc::MAP_FAILED {
+                    return None;
+                }
+                Some(std::slice::from_raw_parts(p as *const AtomicU8, len))
+            }
+        })
+    }
+    /// `None`: no shared table (or out of range) -> the caller falls back to static partitioning.
+    pub fn try_claim(region: usize, index: usize) -> Option<bool> {
+        let t = table()?;
+        if index >= REGION {
+            return None;
+        }
+        let slot = t.get(region * REGION + index)?;
+        Some(slot.compare_exchange(0, 1, Ordering::AcqRel, Ordering::Acquire).is_ok())
+    }
+}
+
 struct Frame {
     devs: Vec<Dev>,
     alts: Vec<u8>,
@@ -104,6 +151,7 @@ struct Driver<'a> {
     step_cap: u32,
     part: (usize, usize),
     salt: u64,
+    claim_region: Option<usize>,
     deadline: Option<Instant>,
     on_exec: OnExec<'a>,
     stats: ExploreStats,
@@ -215,8 +263,14 @@ impl Driver<'_> {
             if depth == self.split_depth {
                 let idx = self.root_child_index;
                 self.root_child_index += 1;
-                let h = ((idx as u64).wrapping_add(self.salt)).wrapping_mul(0x9E37_79B9_7F4A_7C15);
-                if ((h >> 33) as usize) % self.part.1 != self.part.0 {
+                let mine = match self.claim_region.and_then(|r| claims::try_claim(r, idx)) {
+                    Some(won) => won,
+                    None => {
+                        let h = ((idx as u64).wrapping_add(self.salt)).wrapping_mul(0x9E37_79B9_7F4A_7C15);
+                        ((h >> 33) as usize) % self.part.1 == self.part.0
+                    }
+                };
+                if !mine {
                     continue;
                 }
             }
@@ -426,6 +480,7 @@ pub fn explore<'a, F>(
     step_cap: u32,
     part: (usize, usize),
     salt: u64,
+    claim_region: Option<usize>,
     deadline: Option<Instant>,
     only: Option<Vec<Dev>>,
     body: F,
@@ -444,6 +499,7 @@ where
         step_cap,
         part,
         salt,
+        claim_region: if part.1 > 1 { claim_region } else { None },
         deadline,
         on_exec,
         stats: ExploreStats { by_depth: vec![0; bound.max(only.as_ref().map_or(0, |d| d.len())) + 1], ..Default::default() },
